@@ -31,6 +31,7 @@ class Unit:
     dfcc: bool = True
     reach: bool = True              # vacuity guard: end of harness must be reachable
     reach_timeout: int = 120
+    harness_pre: str = ''            # ghost assignments before the call in the generated harness (e.g. g_N = numNodes;)
     witness: str = ''               # optional concrete inputs for the vacuity guard run
     flags: list = field(default_factory=list)      # extra cbmc flags
     no_flags: list = field(default_factory=list)   # default cbmc flags to drop
@@ -40,6 +41,7 @@ class Unit:
     says: str = ''                  # which words of the property this encodes
     tier: str = 'quick'             # 'quick' | 'thorough'
     trusted: list = field(default_factory=list)   # extra trusted-base notes
+    ghost_prefix: str = ''           # ghost declarations put at the start of the extracted body (entry values, spec terms)
     body_override: Optional[str] = None  # spec-level lemma functions only (no repo code): proof body, usually ''
 
     @property
@@ -70,6 +72,8 @@ def lowered_body(u, loops=True):
     """extract + lower + loop contracts.  Returns (c_body, info)."""
     ex = extract.extract_body(u.src, u.anchor, u.occurrence, u.of, u.within)
     body, fired = lower.apply_rules(ex['body'], u.lower)
+    if u.ghost_prefix:
+        body = '/* ghost */ ' + u.ghost_prefix.strip() + '\n' + body
     nloops = len(lower.find_loops(body))
     if loops and u.kind != 'bounded':
         body, nloops = lower.insert_loop_contracts(body, u.loops)
@@ -118,6 +122,8 @@ def build_tu(u, registry):
         ps = parse_params(u.proto)
         decls = ''.join('  %s %s;\n' % (t, n) for t, n in ps)
         h = decls
+        if u.harness_pre:
+            h += '  ' + u.harness_pre.strip() + '\n'
         if u.witness:
             h += '  GV_WITNESS(%s);\n' % u.witness
         h += '  %s(%s);\n' % (u.fn, ', '.join(n for _, n in ps))
